@@ -8,8 +8,8 @@ import common_rq
 TRANSFORMS = "prqlc/prqlc/src/semantic/resolver/transforms.rs"
 LR = "prqlc/prqlc-parser/src/lexer/lr.rs"
 
-LABELS = ["JL1", "JL2", "JL3", "JL4", "JL5"]
-FUNCTIONS = ["map_json_primitive"]
+LABELS = ["JL1", "JL2", "JL3", "JL4", "JL5", "JC1"]
+FUNCTIONS = ["map_json_primitive", "parse_json2"]
 RLIMIT = 60
 
 ASSUMED = [
@@ -17,10 +17,16 @@ ASSUMED = [
     {"what": "serde_json::Value is a shim with the real variant names (Array / Object payloads opaque); serde_json::Number: as_i64() is Some exactly for integers that fit an "
              "i64 (is_i64() says whether), is_f64() is true for numbers stored as floats and then as_f64() is Some (serde_json 1.x documentation of Number)",
      "keys": ["struct Number", "spec fn i64_of", "spec fn f64_of", "spec fn stored_as_float", "fn is_i64", "fn is_f64", "fn as_i64", "fn as_f64"]},
+    {"what": "parse_json2: `serde_json::from_str(text).map_err(|x| x.to_string())?` is parse_format2(text)? - the deserialised {columns, data} of the text, uninterpreted; the rows chain "
+             "`data.into_iter().map(|row| row.into_iter().map(map_json_primitive).collect_vec()).collect_vec()` is rows_of(data) (each cell through map_json_primitive, in place); an in-place "
+             "re-ordering of a vector (sort / dedup / reverse) yields an arbitrary vector",
+     "keys": ["fn parse_format2", "spec fn parsed2", "fn rows_of_fn", "spec fn rows_of", "struct JsonFormat2", "struct RelationLiteral", "fn verif_reorder"]},
 ]
 TRUSTED = [
     "oracle (C12 / C08): every JSON value - including integers between i64::MAX and u64::MAX, which serde_json stores as u64 - is mapped to a literal without panicking; "
     "booleans, strings and integers that fit an i64 keep their value",
+    "oracle (C05): the `columns` list of the {columns, data} layout is the frame of the literal, in the order written: the rows are positional, so any re-ordering of the names "
+    "puts the values under other names (JC1)",
 ]
 
 PRELUDE = r"""
@@ -42,6 +48,13 @@ pub mod serde_json {
     }
     pub enum Value { Null, Bool(bool), Number(Number), String(String), Array(OpaqueT), Object(OpaqueT) }
 }
+pub struct JsonFormat2 { pub columns: Vec<String>, pub data: Vec<Vec<serde_json::Value>> }
+pub struct RelationLiteral { pub columns: Vec<String>, pub rows: Vec<Vec<Literal>> }
+pub uninterp spec fn parsed2(text: Seq<char>) -> Option<JsonFormat2>;
+pub uninterp spec fn rows_of(data: Vec<Vec<serde_json::Value>>) -> Vec<Vec<Literal>>;
+#[verifier::external_body] pub fn parse_format2(text: &str) -> (r: Result<JsonFormat2, String>) ensures r is Ok ==> parsed2(text@) == Some(r->Ok_0), { unimplemented!() }
+#[verifier::external_body] pub fn rows_of_fn(data: Vec<Vec<serde_json::Value>>) -> (r: Vec<Vec<Literal>>) ensures r == rows_of(data), { unimplemented!() }
+#[verifier::external_body] pub fn verif_reorder<T>(v: &mut Vec<T>) { unimplemented!() }
 """
 
 
@@ -60,7 +73,18 @@ def build(X):
             (primitive is Number && serde_json::i64_of(primitive->Number_0) is None && serde_json::f64_of(primitive->Number_0) is Some)
                 ==> r == Literal::Float(serde_json::f64_of(primitive->Number_0)->0), // @JL5
     """)
-    return PRELUDE + lit.text + "\n" + mj.text + "\n} // verus!\nfn main() {}\n"
+    pj = X.fn(TRANSFORMS, "parse_json2").pub_all()
+    pj.rewrite_re("R5", r"serde_json::from_str\(text\)\.map_err\(\|x\| x\.to_string\(\)\)\?", "parse_format2(text)?", count=1, why="serde_json::from_str + map_err")
+    pj.rewrite_re("R5", r"data\s*\.into_iter\(\)\s*\.map\(\|row\| row\.into_iter\(\)\.map\(map_json_primitive\)\.collect_vec\(\)\)\s*\.collect_vec\(\)", "rows_of_fn(data)", count=1,
+                  why="the rows: every cell through map_json_primitive, in place")
+    pj.shim_reorderings()
+    pj.ret_name("r")
+    pj.contract("""
+        ensures
+            // C05: the frame of the literal is the `columns` list as written, the rows are the data rows in place
+            r is Ok ==> (parsed2(text@) is Some && r->Ok_0.columns == parsed2(text@)->0.columns && r->Ok_0.rows == rows_of(parsed2(text@)->0.data)), // @JC1
+    """)
+    return PRELUDE.replace("pub struct JsonFormat2", lit.text + "\npub struct JsonFormat2", 1) + mj.text + "\n" + pj.text + "\n} // verus!\nfn main() {}\n"
 
 
 # ----------------------------------------------------------------------------- replay on the real compiler + SQLite
